@@ -28,6 +28,7 @@ type FuncResult struct {
 	GenTime     float64
 	Crashed     string
 	UsedLemmas  []string
+	Callees     []string
 }
 
 func (p *Program) srcCache(file string) ([]byte, bool) {
@@ -53,7 +54,7 @@ func newExec(prog *Program, fi *FuncInfo, ct *Contract, opts *Options) *Exec {
 		assumptions: map[string]bool{}, inlined: map[string]bool{}, kindCodes: map[string]int{},
 		boxed: map[types.Object]bool{}, heapMetas: map[string]heapMeta{}, defs: map[string]string{},
 		freshRefs: map[string]bool{}, typeCache: map[string]types.Type{}, implCache: map[string][]types.Type{},
-		entryVars: map[string]TV{}, atags: map[int]string{}, recInProgress: map[string]bool{}, recKeys: map[string][]string{}, actx: map[int]string{}, pcParents: map[string][]string{}, ctxPC: "true"}
+		entryVars: map[string]TV{}, atags: map[int]string{}, recInProgress: map[string]bool{}, recKeys: map[string][]string{}, actx: map[int]string{}, pcParents: map[string][]string{}, ctxPC: "true", calledContracts: map[string]bool{}}
 	e.curPkg = fi
 	return e
 }
@@ -159,6 +160,10 @@ func verifyFunc(prog *Program, fi *FuncInfo, ct *Contract, opts *Options) (fr *F
 		sort.Strings(fr.Inlined)
 		fr.WordMode = e.wordMode
 		fr.UsedLemmas = e.usedLemmas
+		for k := range e.calledContracts {
+			fr.Callees = append(fr.Callees, k)
+		}
+		sort.Strings(fr.Callees)
 		fr.GenTime = time.Since(t0).Seconds()
 		for _, o := range fr.Obls {
 			o.exec = e
@@ -240,6 +245,9 @@ func verifyFunc(prog *Program, fi *FuncInfo, ct *Contract, opts *Options) (fr *F
 	}
 	e.results = resObjs
 	e.resStack = [][]types.Object{resObjs}
+	if ct != nil && ct.Iface {
+		e.bindIfaceNames(ct, fi)
+	}
 	e.entry = st.clone()
 	e.specPos = fd.Body.Lbrace + 1
 	if ct != nil {
@@ -377,9 +385,12 @@ func (o *Obligation) cases() [][]Term { return o.Splits }
 
 func (o *Obligation) queryWith(extra []Term) string { return o.querySel(extra, false) }
 
+const predAxiomPrefix = "(assert (forall ((v!pred Int)) (! (= ("
+
 func (o *Obligation) querySel(extra []Term, selectPremises bool) string {
 	e := o.exec
 	var body strings.Builder
+	var predAxioms []string
 	anc := o.ancestors()
 	for i, a := range e.assumps[:o.NAssump] {
 		if selectPremises {
@@ -400,6 +411,10 @@ func (o *Obligation) querySel(extra []Term, selectPremises bool) string {
 				continue
 			}
 		}
+		if strings.HasPrefix(a, predAxiomPrefix) {
+			predAxioms = append(predAxioms, a)
+			continue
+		}
 		body.WriteString(a)
 		body.WriteByte('\n')
 	}
@@ -409,6 +424,25 @@ func (o *Obligation) querySel(extra []Term, selectPremises bool) string {
 	}
 	body.WriteString("(assert (not " + o.Goal.S + "))\n")
 	txt := body.String()
+	// definitions of named set predicates: only those reachable from the obligation (cone of influence)
+	if len(predAxioms) > 0 {
+		used := make([]bool, len(predAxioms))
+		for changed := true; changed; {
+			changed = false
+			for i, a := range predAxioms {
+				if used[i] {
+					continue
+				}
+				name := a[len(predAxiomPrefix):]
+				name = name[:strings.IndexByte(name, ' ')]
+				if strings.Contains(txt, "("+name+" ") {
+					used[i] = true
+					txt = a + "\n" + txt
+					changed = true
+				}
+			}
+		}
+	}
 	var b strings.Builder
 	b.WriteString(preludeCore)
 	// function definitions are only included when something refers to them (cone of influence)
@@ -707,6 +741,10 @@ func verifyPureLemma(prog *Program, ct *Contract, opts *Options) (fr *FuncResult
 			fr.Assumptions = append(fr.Assumptions, k)
 		}
 		fr.UsedLemmas = e.usedLemmas
+		for k := range e.calledContracts {
+			fr.Callees = append(fr.Callees, k)
+		}
+		sort.Strings(fr.Callees)
 		fr.GenTime = time.Since(t0).Seconds()
 		for _, o := range fr.Obls {
 			o.exec = e
@@ -740,4 +778,115 @@ func verifyPureLemma(prog *Program, ct *Contract, opts *Options) (fr *FuncResult
 	e.assume(st, pre)
 	e.obligeNamed(st, ct.Key+"/post#0", "post", "", post, "pure lemma by induction on its measure", 0)
 	return
+}
+
+
+// bindIfaceNames: when a method implementation is verified against the contract of the
+// interface method, the contract's names (this, a0.., and the interface's own parameter names)
+// denote the implementation's receiver and parameters.
+func (e *Exec) bindIfaceNames(ct *Contract, fi *FuncInfo) {
+	fd := fi.Decl
+	parts := strings.Split(ct.Key, ".")
+	if len(parts) != 3 {
+		return
+	}
+	pkg := e.prog.Pkgs[parts[0]]
+	if pkg == nil {
+		return
+	}
+	tn, _ := pkg.Types.Scope().Lookup(parts[1]).(*types.TypeName)
+	if tn == nil {
+		return
+	}
+	it, ok := tn.Type().Underlying().(*types.Interface)
+	if !ok {
+		return
+	}
+	var m *types.Func
+	for i := 0; i < it.NumMethods(); i++ {
+		if it.Method(i).Name() == parts[2] {
+			m = it.Method(i)
+		}
+	}
+	if m == nil {
+		return
+	}
+	if fd.Recv != nil && len(fd.Recv.List) > 0 && len(fd.Recv.List[0].Names) > 0 {
+		rn := fd.Recv.List[0].Names[0].Name
+		if rv, ok := e.entryVars[rn]; ok {
+			e.entryVars["this"] = TV{MkCont(IntLit(int64(e.kindCode(rv.Ty))), rv.T), tn.Type()}
+		}
+	}
+	_, pn, _ := calleeNames(fi)
+	sig := m.Type().(*types.Signature)
+	for i, n := range pn {
+		v, ok := e.entryVars[n]
+		if !ok {
+			continue
+		}
+		e.entryVars[fmt.Sprintf("a%d", i)] = v
+		if i < sig.Params().Len() && sig.Params().At(i).Name() != "" {
+			if _, clash := e.entryVars[sig.Params().At(i).Name()]; !clash {
+				e.entryVars[sig.Params().At(i).Name()] = v
+			}
+		}
+	}
+}
+
+// contractFor returns the contract a function is verified against: its own, or the contract
+// of the interface method it implements.
+func contractFor(prog *Program, fi *FuncInfo) *Contract {
+	own := prog.Contracts[fi.Key]
+	if own != nil && (len(own.Requires) > 0 || len(own.Ensures) > 0 || own.ModGiven || own.Trusted != "" || own.IsLemma) {
+		return own
+	}
+	if ic := ifaceContractFor(prog, fi); ic != nil {
+		if own == nil {
+			return ic
+		}
+		// annotations only (loop invariants, lemmas, numeric variables): merged with the interface contract
+		m := *ic
+		m.Loops = own.Loops
+		m.Uses = append(append([]string(nil), ic.Uses...), own.Uses...)
+		m.Ints = append(append([]string(nil), ic.Ints...), own.Ints...)
+		m.Mode = own.Mode
+		m.Panics = own.Panics
+		return &m
+	}
+	return own
+}
+
+func ifaceContractFor(prog *Program, fi *FuncInfo) *Contract {
+	if fi.Obj == nil {
+		return nil
+	}
+	sig := fi.Obj.Type().(*types.Signature)
+	if sig.Recv() == nil {
+		return nil
+	}
+	rt := sig.Recv().Type()
+	if _, isPtr := rt.(*types.Pointer); !isPtr {
+		rt = types.NewPointer(rt)
+	}
+	for key, ct := range prog.Contracts {
+		if !ct.Iface {
+			continue
+		}
+		parts := strings.Split(key, ".")
+		if len(parts) != 3 || parts[2] != fi.Decl.Name.Name {
+			continue
+		}
+		pkg := prog.Pkgs[parts[0]]
+		if pkg == nil {
+			continue
+		}
+		tn, _ := pkg.Types.Scope().Lookup(parts[1]).(*types.TypeName)
+		if tn == nil {
+			continue
+		}
+		if it, ok := tn.Type().Underlying().(*types.Interface); ok && types.Implements(rt, it) {
+			return ct
+		}
+	}
+	return nil
 }
